@@ -24,11 +24,11 @@ OpSet ==
     \cup {[op |-> "at", a |-> a, i |-> i] : a \in OBJ, i \in Bounds}
     \cup {[op |-> "data", a |-> a] : a \in OBJ} \cup {[op |-> "size", a |-> a] : a \in OBJ}
 Tgt(pre, s) == [a \in OBJ |-> IF s.obj[a].t > Len(pre.desc) THEN NEWB ELSE s.obj[a].t]
-Next == \E o \in OpSet :
-           LET r == Apply(st, o)
+Step(o) == LET r == Apply(st, o)
                post == Canon(r.m.s) IN
            /\ st' = IF r.m.ab THEN st ELSE post
            /\ ok' = Contract(o, st, post, 2 * Len(post.desc), Tgt(st, r.m.s), IF r.m.ab THEN "abort" ELSE "ok", r.m.ev, r.ret)
+Next == \E o \in OpSet : Step(o)
 Spec == Init /\ [][Next]_vars
 InvOK == ok
 InvView == ViewOK(st)
